@@ -12,6 +12,8 @@ ITEM = {
     "cloneChain": (["let c = d.clone().clone();"], 0, ["let _ = c.len() + d.len();"]),
     # the source `d` is never used after the clone
     "cloneLetUnused": (["let c = d.clone();"], 0, ["let _ = c.len();"]),
+    # the clone stands in the condition of a loop of its own
+    "cloneWhileCond": (["while d.clone().len() > 100 {", "    break;", "}"], 0, ["let _ = d.len();"]),
     # ... and its name only occurs in a comment, a string and as a field of another value afterwards
     "cloneLetMentioned": (["let c = d.clone();"], 0, ["// d is not needed below", "let other = Holder { d: c.len() };",
                                                      "let _ = (\"d was copied\", other.d);"]),
